@@ -12,6 +12,10 @@ PRESETS_WITH_PRE = ["standard", "standard-no-context", "standard-context", "stan
                     "standard-base-prerelease-post-dev-context"]
 
 
+PRESETS_BASE = ["standard-base", "standard-base-context"]
+KNOWN_BASE = "base-presets-print-the-next-release-itself"
+
+
 def out_of(r):
     return unhx(r.split(" ")[1]) if r.startswith("OK ") else None
 
@@ -77,7 +81,7 @@ def run_check(tier, seed):
         rules = rand_rules(rng)
         mode = rng.choice([None, None, "tag", "commit"])
         hash_len = rng.choice([5, 1, 3, 7, 9])
-        preset = rng.choice(PRESETS_WITH_PRE + [None])
+        preset = rng.choice(PRESETS_WITH_PRE + [None]) if rng.random() < 0.9 else rng.choice(PRESETS_BASE)
         distance = rng.choice([None, 0, 1, 2, 9, 1000])
         dirty = rng.choice([None, False, True])
         a = base_args(tag, rng.choice(["semver", "pep440", "auto"]), branch, rules, mode, hash_len, preset, out)
@@ -100,6 +104,8 @@ def run_check(tier, seed):
             core = o.split("+")[0]
             if core != lo:
                 viol("final_tag_all_states", "a clean checkout exactly at a final tag must yield exactly the tag", {"request": c, "described": describe(c), "output": o})
+        elif preset in PRESETS_BASE and o.split("+")[0] == hi:
+            run.known_hits[KNOWN_BASE] += 1        # the base presets hide the pre-release: the version printed is X.Y.(Z+1) itself (listed finding)
         elif not (lt(out, lo, o) and lt(out, o, hi)):
             viol("final_tag_all_states", f"X.Y.Z < V < X.Y.(Z+1) violated in the {out} order", {"request": c, "described": describe(c), "output": o, "low": lo, "high": hi})
 
